@@ -408,6 +408,84 @@ theorem handleReq_rx (st : State) (addr : String) (seq : BitVec 24) (r : Req) (e
       refine rxStep_of_sendRsp st _ hd addr seq _ ?_ _
       rfl
 
+/-- requests received never touch the transmit transactions or the request counter -/
+def TxSame (a b : State) : Prop := b.tx = a.tx ∧ b.txSeq = a.txSeq
+
+theorem txSame_of_sendRsp (st0 st : State) (hs : SameTrans st0 st) (addr : String) (seq : BitVec 24) (m : Msg)
+    (_hm : m.seq = seq) (c : Ctx) : TxSame st0 (st.sendRsp addr m c).1 := by
+  unfold State.sendRsp
+  cases alGet st.rx (addr, m.seq) with
+  | none => exact ⟨hs.2.1, hs.2.2.1⟩
+  | some _ => exact ⟨hs.2.1, hs.2.2.1⟩
+
+theorem handleReq_tx (st : State) (addr : String) (seq : BitVec 24) (r : Req) (env : Env) (c : Ctx) :
+    TxSame st (handleReq st addr seq r env c).1 := by
+  cases r with
+  | heartbeat => exact txSame_of_sendRsp st st (SameTrans.refl st) addr seq _ rfl c
+  | other => exact ⟨rfl, rfl⟩
+  | assoc nid =>
+    simp only [handleReq]
+    unfold handleAssoc
+    split
+    · exact ⟨rfl, rfl⟩
+    · simp only []
+      split
+      · rename_i h _
+        have hr := resetNode_same st h env c
+        generalize st.resetNode h env c = R at hr
+        obtain ⟨st', c'⟩ := R
+        simp only []
+        refine txSame_of_sendRsp st _ ?_ addr seq _ ?_ _
+        · exact ⟨hr.1, hr.2.1, hr.2.2.1, hr.2.2.2⟩
+        · rfl
+      · simp only []
+        refine txSame_of_sendRsp st _ ?_ addr seq _ ?_ _
+        · exact ⟨rfl, rfl, rfl, rfl⟩
+        · rfl
+  | est e =>
+    simp only [handleReq]
+    unfold handleEst
+    split
+    · exact ⟨rfl, rfl⟩
+    · split
+      · exact ⟨rfl, rfl⟩
+      · split
+        · exact ⟨rfl, rfl⟩
+        · rename_i nid _ h _ _ cp _
+          generalize st.lnode.newSess h cp = N
+          obtain ⟨ln, s0⟩ := N
+          simp only []
+          generalize runStages (estStages e) s0 c [] = R
+          obtain ⟨s5, c5, u5⟩ := R
+          simp only []
+          refine txSame_of_sendRsp st _ ?_ addr seq _ ?_ _
+          · exact ⟨rfl, rfl, rfl, rfl⟩
+          · rfl
+  | mod m =>
+    simp only [handleReq]
+    unfold handleMod
+    split
+    · exact txSame_of_sendRsp st st (SameTrans.refl st) addr seq _ rfl c
+    · rename_i s0 _
+      generalize runStages (modStages m) s0 c [] = R
+      obtain ⟨s16, c16, u16⟩ := R
+      simp only []
+      refine txSame_of_sendRsp st _ ?_ addr seq _ ?_ _
+      · unfold State.takeover; cases m.nodeID <;> exact ⟨rfl, rfl, rfl, rfl⟩
+      · rfl
+  | del x =>
+    simp only [handleReq]
+    unfold handleDel
+    split
+    · exact txSame_of_sendRsp st st (SameTrans.refl st) addr seq _ rfl c
+    · rename_i s0 _
+      have hd := deleteSess_same st s0.rnode x env c
+      generalize st.deleteSess s0.rnode x env c = R at hd
+      obtain ⟨st1, c1, s1, rs⟩ := R
+      simp only []
+      refine txSame_of_sendRsp st _ hd addr seq _ ?_ _
+      rfl
+
 end UpfVerif.Core
 
 namespace UpfVerif.Core
